@@ -20,6 +20,9 @@ import ast
 from ..core import norm, calls_in, kwarg, AnalysisError, walk_no_nested, cmp_canon
 from .. import effects
 from ..effects import FRESH, UNKNOWN
+import numpy as np
+import sympy as sp
+from ..symx import SymEval, PyStub, symarray, module_aliases, equal, Opaque, WouldRaise, arr
 
 AT = 'atomman/core/Atoms.py'
 SYS = 'atomman/core/System.py'
@@ -32,38 +35,94 @@ SUMM = {'.position_cartesian_to_relative': ('fresh',), '.position_relative_to_ca
 def rect_guard(ctx):
     fn = ctx.fn(AT, 'Atoms.PropertyDict.__setitem__')
     loc = AT + '::Atoms.PropertyDict.__setitem__'
-    # the shape chain
-    chain = [s for s in fn.body if isinstance(s, ast.If) and 'value.shape' in norm(s.test)]
-    ctx.need(len(chain) == 1, 'PropertyDict.__setitem__: shape test chain not found')
-    c = chain[0]
-    arms = []
-    cur = c
-    while True:
-        arms.append((norm(cur.test).replace(' ', ''), cur.body))
-        if len(cur.orelse) == 1 and isinstance(cur.orelse[0], ast.If):
-            cur = cur.orelse[0]
-        else:
-            tail = cur.orelse
-            break
-    tests = [a[0] for a in arms]
-    ok = len(arms) == 3 and tests[0] == 'value.shape==()' and tests[1] == 'value.shape[0]==1' and tests[2] in ('value.shape[0]!=host.natoms',) and any(isinstance(x, ast.Raise) for x in arms[2][1])
-    ctx.ob('RECT-GUARD', loc, 'values are scalar (broadcast), leading-1 (broadcast) or have exactly natoms rows; anything else is refused', ok, str(tests), node=c)
-    if ok:
-        b0 = norm(arms[0][1][0]).replace(' ', '')
-        b1 = norm(arms[1][1][0]).replace(' ', '')
-        ctx.ob('RECT-GUARD', loc, 'broadcast targets have natoms rows and keep the trailing shape',
-               '(host.natoms,)+value.shape)' in b0 and '(host.natoms,)+value.shape[1:])' in b1 and b0.startswith('value=np.array(') and b1.startswith('value=np.array('), b0 + ' | ' + b1, node=c)
-    conv = [s for s in fn.body if isinstance(s, ast.Assign) and norm(s).replace(' ', '') == 'value=np.asarray(value)']
-    ctx.ob('RECT-GUARD', loc, 'values are converted to arrays before the shape test', len(conv) == 1 and conv[0].lineno < c.lineno, node=fn)
-    at = [s for s in fn.body if isinstance(s, ast.If) and "key == 'atype'" in norm(s.test) and 'np.min(value) < 1' in norm(s.test) and any(isinstance(x, ast.Raise) for x in s.body)]
-    ctx.ob('RECT-GUARD', loc, 'atom types below 1 are refused', len(at) == 1, node=fn)
-    stores = [s for s in ast.walk(fn) if (isinstance(s, ast.Assign) and norm(s.targets[0]).replace(' ', '') == 'self[key][:]') or
-              (isinstance(s, ast.Expr) and isinstance(s.value, ast.Call) and norm(s.value.func).endswith('__setitem__'))]
-    ok = len(stores) == 2 and all(s.lineno > c.end_lineno for s in stores) and (not at or all(s.lineno > at[0].end_lineno for s in stores))
-    ctx.ob('RECT-GUARD', loc, 'both stores (in-place overwrite of an existing key, insertion of a new key) come after the shape and type tests', ok, '%d stores' % len(stores), node=fn)
-    ow = [s for s in stores if isinstance(s, ast.Assign)]
-    ok = len(ow) == 1 and isinstance(ow[0]._parent, ast.If) and norm(ow[0]._parent.test).replace(' ', '') in ('keyinself.keys()', 'keyinself') and norm(ow[0].value) == 'value'
-    ctx.ob('RECT-GUARD', loc, 'an existing property is overwritten in place (row count cannot change)', ok, node=fn)
+    # model evaluation: the method applied to values of every leading-shape class, for a new key and for an existing key
+    N = 5
+    ev_aliases = module_aliases(ctx.mod(AT))
+
+    class Host(PyStub):
+        natoms = N
+
+    class Sup(PyStub):
+        def __init__(self, rec):
+            self.rec = rec
+
+        def __setitem__(self, k, v):
+            self.rec.append(('insert', k, v))
+
+        def __setattr__(self, k, v):
+            if k == 'rec':
+                object.__setattr__(self, k, v)
+
+    class View(PyStub):
+        def __init__(self, existing):
+            self.store = dict(existing)
+            setattr(self, '__host', Host())
+            setattr(self, '_PropertyDict__host', Host())
+
+        def keys(self):
+            return list(self.store.keys())
+
+        def __contains__(self, k):
+            return k in self.store
+
+        def __getitem__(self, k):
+            return self.store[k]
+
+    def run(key, value, existing):
+        rec = []
+        view = View(existing)
+        ev = SymEval(ev_aliases)
+        class _A(PyStub):
+            PropertyDict = 'PropertyDict'
+        ev.globals = {'super': lambda *a: Sup(rec), 'dir': lambda o: [], 'Atoms': _A()}
+        paths = ev.run_fn(fn, [view, key, value], {})
+        live = [q for q in paths if q.done == 'return']
+        raised = [q for q in paths if q.done == 'raise']
+        return view, rec, live, raised
+    cases = [('scalar', ()), ('one row', (1,)), ('one row of vectors', (1, 3)), ('natoms rows', (N,)), ('natoms vectors', (N, 3)), ('natoms tensors', (N, 3, 3)),
+             ('two rows', (2,)), ('six rows', (N + 1,)), ('two vectors', (2, 3)), ('three numbers for vector property', (3,)), ('3x3 for tensor property', (3, 3)), ('zero rows', (0, 3))]
+    n_cases = 0
+    for name, shp in cases:
+        good = shp == () or shp[0] in (1, N)
+        trailing = shp[1:] if shp != () else ()
+        for mode in ('new key', 'existing key'):
+            n_cases += 1
+            val = symarray('w', shp) if shp != () else sp.Symbol('w')
+            # an existing property whose trailing shape would let numpy broadcast a wrong-sized value silently
+            ex_trailing = trailing if good else (shp if len(shp) >= 1 else ())
+            existing = {'k': symarray('e', (N,) + tuple(ex_trailing))} if mode == 'existing key' else {}
+            try:
+                view, rec, live, raised = run('k', val, existing)
+            except WouldRaise as e:
+                view, rec, live, raised = None, [], [], ['numpy: %s' % e]
+            except Opaque as e:
+                raise AnalysisError('PropertyDict.__setitem__ (%s, %s): %s' % (name, mode, e))
+            tag = '%s %s, %s' % (name, shp, mode)
+            if not good:
+                ctx.ob('RECT-GUARD', loc, '%s: refused (first dimension must be 1 or natoms)' % tag, bool(raised) and not live and not rec, 'accepted' if live else '', node=fn, key=tag)
+                continue
+            ok = len(live) == 1 and not raised
+            stored = None
+            if ok and mode == 'new key':
+                ok = len(rec) == 1 and rec[0][0] == 'insert' and rec[0][1] == 'k'
+                stored = rec[0][2] if ok else None
+            elif ok:
+                ok = not rec
+                stored = view.store['k']
+            want = np.broadcast_to(np.asarray(val, dtype=object), (N,) + tuple(trailing)) if shp == () or shp[0] == 1 else val
+            ok = ok and stored is not None and np.shape(stored) == (N,) + tuple(trailing) and equal(np.asarray(stored, dtype=object), np.asarray(want, dtype=object), deep=False)
+            ctx.ob('RECT-GUARD', loc, '%s: stored with exactly natoms rows (%s), trailing shape kept' % (tag, 'broadcast' if (shp == () or shp[0] == 1) and N != 1 else 'as given'), ok,
+                   'stored shape %s' % (np.shape(stored),) if stored is not None else 'not stored', node=fn, key=tag)
+    ctx.floor('RECT-GUARD/cases', n_cases, 24)
+    for mode in ('new key', 'existing key'):
+        existing = {'atype': arr([1] * N)} if mode == 'existing key' else {}
+        try:
+            view, rec, live, raised = run('atype', arr([1, 2, 0, 1, 1]), existing)
+        except Opaque as e:
+            raise AnalysisError('PropertyDict.__setitem__ (atype, %s): %s' % (mode, e))
+        ctx.ob('RECT-GUARD', loc, 'atom types below 1 are refused (%s)' % mode, bool(raised) and not live and not rec, node=fn, key='atype ' + mode)
+        view, rec, live, raised = run('atype', arr([1, 2, 3, 1, 1]), existing)
+        ctx.ob('RECT-GUARD', loc, 'atom types >= 1 are accepted (%s)' % mode, len(live) == 1 and not raised, node=fn, key='atype ok ' + mode)
     # who may write the dict
     bad = []
     n = 0
